@@ -65,7 +65,7 @@ impl<'a> Gen<'a> {
     pub fn tree(&mut self, links: LinkMode) -> Vec<Node> {
         let cap = match self.tier {
             Tier::Quick => 20,
-            Tier::Thorough => 40,
+            Tier::Thorough => 60,
         };
         let n = if self.rng.chance(1, 2) { self.rng.range(2, 8) } else { self.rng.range(6, cap) };
         let spine = self.rng.chance(1, self.spine_odds);
